@@ -119,8 +119,8 @@ func forwardedLoop(fset *token.FileSet, path string, d *ast.FuncDecl) (int, erro
 	return n, nil
 }
 
-// Load parses <repo>/clientip/clientip.go and returns the tables only (the shape of
-// parseForwardedListItem is not examined: the harness must run on trees where it changed).
+// Load parses <repo>/clientip/clientip.go and returns the tables only (the pinned function
+// bodies are not examined: the harness must run on trees where they changed).
 func Load(repo string) (map[string][]Range, error) {
 	return load(repo, nil)
 }
@@ -149,6 +149,10 @@ func load(repo string, consts *Consts) (map[string][]Range, error) {
 			}
 			switch d.Name.Name {
 			case "mustParseCIDR":
+				if consts == nil {
+					seenFn[d.Name.Name] = true
+					continue
+				}
 				d.Doc = nil
 				if got := src(fset, d); got != wantMustParseCIDR {
 					return nil, fmt.Errorf("%s: mustParseCIDR has an unrecognised body:\n%s", path, got)
@@ -166,6 +170,10 @@ func load(repo string, consts *Consts) (map[string][]Range, error) {
 				consts.ForwardedMaxParts = n
 				seenFn[d.Name.Name] = true
 			case "isIPContainedInRanges":
+				if consts == nil {
+					seenFn[d.Name.Name] = true
+					continue
+				}
 				d.Doc = nil
 				if got := src(fset, d); got != wantContained {
 					return nil, fmt.Errorf("%s: isIPContainedInRanges has an unrecognised body:\n%s", path, got)
